@@ -54,6 +54,8 @@ func UpdateStatus(backend *BfeBackend, cluster string) bool {
 
 func check(backend *BfeBackend, cluster string) {
 	log.Logger.Info("start healthcheck for %s", backend.Name)
+	verifTrace("check_start", backend, 0)
+	defer verifTrace("check_exit", backend, 0)
 
 	// backend close chan
 	c := backend.CloseChan()
@@ -77,6 +79,7 @@ loop:
 
 		// health check
 		if ok, err := CheckConnect(backend, checkConf); !ok {
+			verifTrace("probe", backend, 0)
 			backend.ResetSuccNum()
 			if bfe_debug.DebugHealthCheck {
 				log.Logger.Debug("backend %s still not avail (check failure: %s)", backend.Name, err)
@@ -86,6 +89,7 @@ loop:
 		}
 
 		// check whether backend becomes available
+		verifTrace("probe", backend, 1)
 		backend.AddSuccNum()
 		if !backend.CheckAvail(*checkConf.SuccNum) {
 			if bfe_debug.DebugHealthCheck {
